@@ -164,6 +164,101 @@ theorem rCoord_range (start a : α) (n : Nat) :
 
 end RSeq
 
+/-! ### the generalised golden ratio (`compute_phi`) and the step vector `alpha` -/
+section Phi
+variable {α : Type} [Field α] [LinearOrder α] [IsStrictOrderedRing α]
+
+/-- the `while old_phi != phi` loop can only stop at a fixed point of `phi ↦ pow(1 + phi, 1/(d+1))`, and every iterate stays
+non-negative — for any `root` that returns non-negative values on non-negative arguments -/
+theorem phiLoop_fixed [BEq α] [LawfulBEq α] (root : α → α) (hroot : ∀ y, 0 ≤ y → 0 ≤ root y) (fuel : Nat) (x p : α) (hx : 0 ≤ x)
+    (h : phiLoop (1 : α) root fuel x = some p) : root (1 + p) = p ∧ 0 ≤ p := by
+  induction fuel generalizing x with
+  | zero => simp [phiLoop] at h
+  | succ fuel ih =>
+    simp only [phiLoop] at h
+    have hnn : 0 ≤ root (1 + x) := hroot _ (by linarith)
+    split at h
+    · rename_i heq
+      have heq' : root (1 + x) = x := by simpa using heq
+      cases h
+      constructor
+      · rw [heq', heq']
+      · exact hnn
+    · exact ih _ hnn h
+
+/-- **`compute_phi` returns the generalised golden ratio**: if `pow(y, 1/(d+1))` is the exact `(d+1)`-th root (the contract of `pow`
+in exact arithmetic), the value at which the loop stops satisfies `phi^(d+1) = phi + 1` -/
+theorem phi_is_generalised_golden_ratio [BEq α] [LawfulBEq α] (d : Nat) (root : α → α)
+    (hroot : ∀ y, 0 ≤ y → 0 ≤ root y ∧ (root y) ^ (d + 1) = y) (fuel : Nat) (p : α)
+    (h : phiLoop (1 : α) root fuel 2 = some p) : 0 ≤ p ∧ p ^ (d + 1) = p + 1 := by
+  obtain ⟨hfix, hp⟩ := phiLoop_fixed root (fun y hy => (hroot y hy).1) fuel 2 p (by norm_num) h
+  refine ⟨hp, ?_⟩
+  have := (hroot (1 + p) (by linarith)).2
+  rw [hfix] at this
+  rw [this]; ring
+
+theorem golden_gt_one (n : Nat) (x : α) (hx : 0 ≤ x) (h : x ^ (n + 2) = x + 1) : 1 < x := by
+  by_contra hle
+  have hle : x ≤ 1 := not_lt.mp hle
+  have h1 : x ^ (n + 2) ≤ 1 := pow_le_one₀ hx hle
+  have h2 : x ≤ 0 := by linarith
+  have h3 : x = 0 := le_antisymm h2 hx
+  rw [h3] at h
+  simp at h
+
+/-- the equation `x^(d+1) = x + 1` (`d ≥ 1`) has at most one non-negative solution: the loop cannot stop anywhere else -/
+theorem golden_unique (n : Nat) (x y : α) (hx : 0 ≤ x) (hy : 0 ≤ y) (h1 : x ^ (n + 2) = x + 1) (h2 : y ^ (n + 2) = y + 1) : x = y := by
+  have key : ∀ a b : α, 0 ≤ a → a ^ (n + 2) = a + 1 → b ^ (n + 2) = b + 1 → a < b → False := by
+    intro a b ha e1 e2 hab
+    have ha1 : 1 < a := golden_gt_one n a ha e1
+    have hb1 : 1 < b := lt_trans ha1 hab
+    have hpow : a ^ (n + 1) < b ^ (n + 1) := pow_lt_pow_left₀ hab ha (by omega)
+    have hapos : 0 < a ^ (n + 1) - 1 := by
+      have : 1 < a ^ (n + 1) := one_lt_pow₀ ha1 (by omega)
+      linarith
+    have hlt : a * (a ^ (n + 1) - 1) < b * (b ^ (n + 1) - 1) :=
+      mul_lt_mul'' hab (by linarith) ha (le_of_lt hapos)
+    have ea : a * (a ^ (n + 1) - 1) = 1 := by
+      have : a * a ^ (n + 1) = a ^ (n + 2) := by ring
+      rw [mul_sub, this, e1]; ring
+    have eb : b * (b ^ (n + 1) - 1) = 1 := by
+      have : b * b ^ (n + 1) = b ^ (n + 2) := by ring
+      rw [mul_sub, this, e2]; ring
+    rw [ea, eb] at hlt
+    exact lt_irrefl _ hlt
+  rcases lt_trichotomy x y with h | h | h
+  · exact (key x y hx h1 h2 h).elim
+  · exact h
+  · exact (key y x hy h2 h1 h).elim
+
+/-- the step vector `alpha_j = (1/phi)^j`, `j = 1..d`: every component lies strictly between 0 and 1, they decrease, and the
+last one closes the defining identity `alpha_d · (1 + alpha_1) = 1` -/
+theorem alphas_spec (d : Nat) (phi : α) (hp : 0 ≤ phi) (hphi : phi ^ (d + 2) = phi + 1) :
+    alphas (1 : α) (fun x k => x ^ k) phi (d + 1) = (List.range (d + 1)).map (fun j => (1 / phi) ^ (j + 1)) ∧
+    (∀ j, 0 < (1 / phi) ^ (j + 1) ∧ (1 / phi) ^ (j + 1) < 1 ∧ (1 / phi) ^ (j + 2) < (1 / phi) ^ (j + 1)) ∧
+    (1 / phi) ^ (d + 1) * (1 + (1 / phi) ^ 1) = 1 := by
+  have h1 : 1 < phi := golden_gt_one d phi hp hphi
+  have hpos : 0 < phi := by linarith
+  have hinv0 : 0 < 1 / phi := by positivity
+  have hinv1 : 1 / phi < 1 := by rw [div_lt_one hpos]; exact h1
+  refine ⟨rfl, ?_, ?_⟩
+  · intro j
+    refine ⟨by positivity, pow_lt_one₀ (le_of_lt hinv0) hinv1 (by omega), ?_⟩
+    have : (1 / phi) ^ (j + 2) = (1 / phi) ^ (j + 1) * (1 / phi) := by ring
+    rw [this]
+    have hq : 0 < (1 / phi) ^ (j + 1) := by positivity
+    nlinarith
+  · have hne : phi ≠ 0 := ne_of_gt hpos
+    have hqp : (1 / phi) * phi = 1 := by field_simp
+    have e1 : (1 / phi) ^ (d + 2) * phi ^ (d + 2) = 1 := by rw [← mul_pow, hqp, one_pow]
+    rw [hphi] at e1
+    have e2 : (1 / phi) ^ (d + 1) * (1 + (1 / phi) ^ 1) = (1 / phi) ^ (d + 2) * (phi + 1) := by
+      have : (1 / phi) ^ (d + 2) * (phi + 1) = (1 / phi) ^ (d + 1) * ((1 / phi) * phi) + (1 / phi) ^ (d + 1) * (1 / phi) := by ring
+      rw [this, hqp]; ring
+    rw [e2]; exact e1
+
+end Phi
+
 /-! ## primes -/
 
 /-- the sieve model reproduces the prime table used for dimensions 1–40 -/
